@@ -272,12 +272,12 @@ func c19GenPre(h *H, content []byte, parts [][]byte) (c19Pre, string) {
 		if h.Intn(6) == 0 {
 			pre.links = 2
 		}
-		switch h.Intn(6) {
-		case 0:
+		switch h.Intn(16) {
+		case 0, 1:
 			pre.perm = 0200
-		case 1:
-			pre.perm = 0400
 		case 2:
+			pre.perm = 0400
+		case 3:
 			pre.perm = 0000
 		}
 	}
@@ -293,8 +293,8 @@ func streamC19(h *H) {
 	prealloc := vPreallocWorks()
 	zc := restic.Hash(make([]byte, c19ZeroChunkLen))
 
-	nBatches := h.N(6, 240)
-	perBatch := 50
+	nBatches := h.N(4, 240)
+	perBatch := 40
 	for bi := 0; bi < nBatches; bi++ {
 		repo, be := vNewRepo()
 		if repo.ChunkerFactory().ZeroChunk() != zc {
@@ -305,7 +305,7 @@ func streamC19(h *H) {
 		for i := 0; i < perBatch; i++ {
 			c := &c19Case{}
 			var l []string
-			c.parts, l = c19GenParts(h, h.Intn(12) == 0)
+			c.parts, l = c19GenParts(h, h.Intn(16) == 0)
 			c.labels = append(c.labels, l...)
 			content := c19Concat(c.parts)
 			if h.Intn(25) == 0 {
@@ -320,7 +320,7 @@ func streamC19(h *H) {
 			c.sparse = h.Bool()
 			c.del = h.Intn(4) == 0
 			// permission bits only mean something for a non-root restore
-			c.child = canChild && (c.pre.kind == "reg" && c.pre.perm != 0600 || h.Intn(12) == 0)
+			c.child = canChild && (c.pre.kind == "reg" && c.pre.perm != 0600 || h.Intn(30) == 0)
 			if c.child && len(content) > 100000 && h.Intn(3) > 0 {
 				c.child = false
 			}
@@ -381,6 +381,7 @@ func streamC19(h *H) {
 				args = append(args, "--delete")
 			}
 			exit, hang, outText := 0, false, ""
+			t0 := time.Now()
 			if c.child {
 				exit, outText, hang = vChildRestic(repoDir, sb, 60*time.Second, args...)
 			} else {
@@ -391,6 +392,9 @@ func streamC19(h *H) {
 				outText = r.Stderr
 			}
 
+			if os.Getenv("RESTIC_VERIF_DEBUG") != "" {
+				fmt.Fprintf(os.Stderr, "timing child=%v %v\n", c.child, time.Since(t0))
+			}
 			// ---- records
 			h.Case("file")
 			lbl := append([]string{}, c.labels...)
